@@ -95,12 +95,17 @@ def stmtOf (id : Nat) : Option InfluxVerif.Auth.Stmt :=
 /-- bcrypt stands behind this oracle: hash token `h<k>` is the hash of password `p<k>` -/
 def verifyTok (pw hash : String) : Bool := pw.startsWith "p" && hash == "h" ++ (pw.drop 1).toString
 
+def parseCarrier : String → Option InfluxVerif.Auth.Carrier
+  | "none" => some .none | "basic" => some .password | "params" => some .password | "bearer" => some .bearer
+  | _ => none
+
 structure St where
   data : Data := {}
   auto : Bool := true
   k : Nat := 0
   held : Option Data := none
   node : InfluxVerif.Auth.Node := {}
+  polledDBs : List String := []     -- the databases the node's meta client knows (after `poll`)
 
 /-- request bodies of C07: schema type numbers → names (the types the harness can build) -/
 def typeName : Nat → Option String
@@ -175,7 +180,22 @@ def step (s : St) (line : String) : St × String :=
       ({ s with data := d', k := d'.index },
         s!"marked={joinCsv (r.marked.map fun m => toString m.2.2)} deleted={joinCsv (r.deletedLocal.map toString)} prune={if r.pruned then 1 else 0}")
     | _, _, _, _ => (s, "bad-op")
-  | ["poll"] => ({ s with node := InfluxVerif.Auth.authPoll s.node s.data.users }, "ok")
+  | ["poll"] => ({ s with node := InfluxVerif.Auth.authPoll s.node s.data.users, polledDBs := s.data.dbs.map (·.name) }, "ok")
+  | ["hq", c, u, pw, db, ids] =>
+    match parseCarrier c, allSome ((splitCsv ids).map String.toNat?) with
+    | some c, some ids =>
+      match allSome (ids.map stmtOf) with
+      | some q =>
+        let (n, st) := InfluxVerif.Auth.httpQuery verifyTok s.node c (if u = "-" then "" else nm u) pw q (nm db)
+        ({ s with node := n }, s!"{st} exec={if st = 200 then 1 else 0}")
+      | none => (s, "bad-op")
+    | _, _ => (s, "bad-op")
+  | ["hw", c, u, pw, db] =>
+    match parseCarrier c with
+    | some c =>
+      let (n, st) := InfluxVerif.Auth.httpWrite verifyTok s.node c (if u = "-" then "" else nm u) pw (nm db) (s.polledDBs.contains (nm db))
+      ({ s with node := n }, s!"{st} wrote={if st = 204 then 1 else 0}")
+    | none => (s, "bad-op")
   | ["authq", u, db, ids] =>
     match allSome ((splitCsv ids).map String.toNat?) with
     | some ids =>
